@@ -190,7 +190,13 @@ Y_TEXT = (" In the modules the property is anchored in (engine Y): no method use
           "read twice, no cache decorator on a generator / instance method, no written-to mutable default, no class-level container written through "
           "instances, no hash()/id() key of a lasting container, no memo whose key leaves out an argument the value depends on, no Optional result "
           "computed with `and`, no labelling in set order, no copy / pickle hook that does anything but carry the whole instance dictionary over, "
-          "no discarded result of a method that only builds a new object.")
+          "no discarded result of a method that only builds a new object; and (rounds 8-11, Y12-Y29) no class tested after its base class in a chain of leaving "
+          "isinstance tests, no closure made in a loop that outlives the round, no identity comparison of values or classes, no mutable object repeated by `*` / "
+          "fromkeys, no __exit__ that swallows, no backing attribute of a property read from outside, no negated computed slice bound, no tuple-returning call or "
+          "Optional[int] taken for a truth value, slices of one sequence re-assembled consistently, no in-place reorder of a list that is read by position, no "
+          "conditional expression swallowing an operand, no **kwargs order used as a position, no given optional argument re-bound, fixpoint flags only raised, "
+          "no dead `is None` test after a coalescing, **kwargs passed on by same-name delegates, no accumulator created inside its loop. The rules added after "
+          "rounds 9-11 (DESIGN.md section 3) are clauses of the same kind; the authoritative list per property is coverage.rule_instances of the evidence file.")
 
 
 def main():
